@@ -288,10 +288,12 @@ fn random_case(u: &mut Choices, max_depth: usize) -> CaseResult {
     let doc = gen_mapv(u, 0, max_depth, 1);
     let mut texts = vec![];
     let (mut plain, mut quoted) = (0, 0);
+    let mut blocks = 0;
     for st in STYLES {
         let w = write_doc(&doc, st, u, true);
         plain += w.plain_strings;
         quoted += w.quoted_strings;
+        blocks += w.block_scalars;
         texts.push((st, w.text));
     }
     let mut evals = 0;
@@ -304,7 +306,7 @@ fn random_case(u: &mut Choices, max_depth: usize) -> CaseResult {
             CaseResult::Pass(Info {
                 nontrivial: quoted >= 1 && has_num && doc.depth() >= 2,
                 key: hash_case(&[&doc.to_json()]),
-                classes: vec![format!("combos:{}", combos), format!("plain-strings:{}", if plain > 0 { ">0" } else { "0" }), format!("depth:{}", doc.depth().min(4))],
+                classes: vec![format!("combos:{}", combos), format!("plain-strings:{}", if plain > 0 { ">0" } else { "0" }), format!("depth:{}", doc.depth().min(4)), format!("block-scalars:{}", blocks.min(3))],
                 evals,
                 sample: Some(json!({"doc": doc.to_json(), "yaml-block": texts[3].1})),
             })
